@@ -102,12 +102,12 @@ pub fn gen(seed: u64, n: usize, out: &mut Out) {
             { macro_rules! go { ($t:ty, $y:tt) => {{ let mut r2 = r.clone(); let g = build_csr::<$t, u32>(&a, &mut r); let gf = build_csr_w::<$t, u32, f64>(&a, &mut r2, f);
                 panel!(&g, &gf, |e| e.id(), EdgeCount::edge_count(&g), 0, 4, absq, out, |i: i64, _w: i64| i, dir: no, compact: yes, art: yes, dump: dump_view_out) }}; } ty!(go) }
             if a.directed { let mut r2 = r.clone(); let g = build_matrix::<Directed, u16>(&a, &mut r); let gf = build_matrix_w::<Directed, u16, f64>(&a, &mut r2, f);
-                panel!(&g, &gf, |_e| 0, g.edge_count(), 0, 6, absq, out, |_i: i64, w: i64| w, dir: yes, compact: no, art: yes, dump: dump_view) }
+                panel!(&g, &gf, |e| e.id().0.index() * 1000 + e.id().1.index(), g.edge_count(), 0, 6, absq, out, |_i: i64, w: i64| w, dir: yes, compact: no, art: yes, dump: dump_view) }
             else { let mut r2 = r.clone(); let g = build_matrix::<Undirected, u16>(&a, &mut r); let gf = build_matrix_w::<Undirected, u16, f64>(&a, &mut r2, f);
-                panel!(&g, &gf, |_e| 0, g.edge_count(), 0, 6, absq, out, |_i: i64, w: i64| w, dir: no, compact: no, art: yes, dump: dump_view_out) }
+                panel!(&g, &gf, |e| e.id().0.index() * 1000 + e.id().1.index(), g.edge_count(), 0, 6, absq, out, |_i: i64, w: i64| w, dir: no, compact: no, art: yes, dump: dump_view_out) }
         }
         if a.directed { let mut r2 = r.clone(); let g = build_list::<u32>(&a, &mut r); let gf = build_list_w::<u32, f64>(&a, &mut r2, f);
-            panel!(&g, &gf, |_e| 0, EdgeCount::edge_count(&g), 0, 5, absq, out, |i: i64, _w: i64| i, dir: no, compact: yes, art: no, dump: dump_view_out) }
+            panel!(&g, &gf, |e| petgraph::visit::IntoEdgeReferences::edge_references(&g).position(|x| x.id() == e.id()).unwrap_or(9999), EdgeCount::edge_count(&g), 0, 5, absq, out, |i: i64, _w: i64| i, dir: no, compact: yes, art: no, dump: dump_view_out) }
         out.end_case();
         out.stat(if a.directed { "abs_directed" } else { "abs_undirected" });
         out.stat(if a.is_simple() { "abs_simple" } else { "abs_multi" });
